@@ -126,7 +126,8 @@ SPropStart(c) ==
   /\ Upd(c, Issue(c, [ss[c] EXCEPT !.stage = "cfg"], [NoReq EXCEPT !.k = "spec"]))
   /\ UNCHANGED <<sc, sfee, sord, sg>>
 
-\* environment: the wrapped client answers (how: "ok" / "err" / "404" / "zero")
+\* environment: the wrapped client answers (how: "ok" / "err" / "zero" (Spec: no slots per epoch) / "404" (no block in that slot) /
+\* "500" (another api error))
 SAnswer(c, ans) ==
   /\ ss[c].pc = "wait"
   /\ Upd(c, [ss[c] EXCEPT !.pc = "got", !.ans = ans])
@@ -137,7 +138,7 @@ SpecErr(how) == IF how = "zero" THEN "speczero" ELSE "spec"
 \* answers that end the call with an error (no shared state involved)
 SGotFail(c) ==
   /\ ss[c].pc = "got"
-  /\ \/ ss[c].ans.how = "err" /\ Upd(c, Fail(ss[c], IF ss[c].req.k = "spec" THEN "spec" ELSE "bn"))
+  /\ \/ ss[c].ans.how \in {"err", "500"} /\ Upd(c, Fail(ss[c], IF ss[c].req.k = "spec" THEN "spec" ELSE "bn"))
      \/ ss[c].ans.how = "zero" /\ ss[c].req.k = "spec" /\ Upd(c, Fail(ss[c], "speczero"))
      \/ /\ ss[c].req.k = "block" /\ ss[c].ans.how = "404" /\ ss[c].prev - 1 <= 0
         /\ Upd(c, Fail(ss[c], "noblock"))
